@@ -66,6 +66,7 @@ class World(object):
         self.forced_fail = 0
         self.server_errors = []   # exceptions raised by EngineServer methods
         self.cas_loss = None      # armed lost-compare-and-swap injection
+        self.split_job_delete = False   # job row deleted in a later event
 
     def add(self, ev):
         self.seq += 1
@@ -736,7 +737,23 @@ def run_job(handle):
         if hasattr(sched, '_heap'):
             sched._heap.remove(handle)
             heapq.heapify(sched._heap)
-            sched._process_memory_job(handle[2])
+            if W.split_job_delete:
+                # the real scheduler invokes a job and deletes its row in
+                # two transactions: other engine threads may run in between
+                # while the row is still there, marked as captured.  The
+                # deletion becomes an event of its own.
+                orig_del = sched._delete_scheduled_job
+
+                def later(job, _orig=orig_del):
+                    W.add(Ev('del', '_delete_scheduled_job',
+                             lambda: _orig(job), {'split_job': True}))
+                sched._delete_scheduled_job = later
+                try:
+                    sched._process_memory_job(handle[2])
+                finally:
+                    del sched._delete_scheduled_job
+            else:
+                sched._process_memory_job(handle[2])
         else:
             with db_api.transaction():
                 # load first (as get_delayed_calls_to_start does) so the
@@ -751,7 +768,12 @@ def run_job(handle):
                 return
             prepared = sched._prepare_calls([db_call])
             sched._invoke_calls(prepared)
-            sched.delete_calls([db_call])
+            if W.split_job_delete:
+                W.add(Ev('del', 'delete_calls',
+                         lambda: sched.delete_calls([db_call]),
+                         {'split_job': True}))
+            else:
+                sched.delete_calls([db_call])
     finally:
         auth_context.set_ctx(CTX)
 
